@@ -3,55 +3,53 @@ C10 — timezones of the date/time/gregorian types: the lexical space of timezon
 so the theorems are kernel evaluations over the complete space (model: `Lex.matchTz`, `Lex.tzOfLex`,
 `Lex.tzCanon` in EPV/Model/Lexical.lean; spec: `XSD.timezoneVal?`, `XSD.timezoneCanon`, `XSD.timezoneLiterals`).
 -/
-import EPV.Model.Lexical
-import EPV.Spec.XSDLexical
+import EPV.Lemmas.LexicalTz
 namespace EPV.C10
 open EPV
 
-def tzCheck (p : List Char × Int) : Bool :=
-  (Lex.tzParse p.1 == some p.2) && (XSD.timezoneVal? p.1 == some p.2) && decide (-840 ≤ p.2 ∧ p.2 ≤ 840)
-
-theorem tzCheck_all : XSD.timezoneLiterals.all tzCheck = true := by decide +kernel
-
-def tzRound (n : Nat) : Bool :=
-  let v : Int := (n : Int) - 840
-  (Lex.tzParse (Lex.tzCanon v) == some v) && (XSD.timezoneVal? (Lex.tzCanon v) == some v) &&
-  (Lex.tzCanon v == XSD.timezoneCanon v)
-
-theorem tzRound_all : (List.range 1681).all tzRound = true := by decide +kernel
-
-theorem tz_roundtrip_fin (m : Nat) (hm : m < 1681) :
-    Lex.tzParse (Lex.tzCanon ((m : Int) - 840)) = some ((m : Int) - 840) ∧
-      XSD.timezoneVal? (Lex.tzCanon ((m : Int) - 840)) = some ((m : Int) - 840) ∧
-      Lex.tzCanon ((m : Int) - 840) = XSD.timezoneCanon ((m : Int) - 840) := by
-  have := List.all_eq_true.mp tzRound_all m (List.mem_range.mpr hm)
-  simp only [tzRound, Bool.and_eq_true, beq_iff_eq] at this
-  exact ⟨this.1.1, this.1.2, this.2⟩
-
 /-- **tz_parse_canon_roundtrip**: for every offset of −14:00 … +14:00 (in minutes) the canonical rendering
 (`Timezone.tzname`: 'Z' for 0, else ±hh:mm) is in the lexical space and re-parses — by the code's reading and
-by the spec's — to the same number of minutes; negative offsets below one hour keep their sign. -/
+by the spec's — to the same number of minutes; negative offsets below one hour keep their sign.
+(Kernel evaluation over the 1681 offsets, `LexLemmas.tzRound_all`.) -/
 theorem tz_parse_canon_roundtrip (v : Int) (h1 : -840 ≤ v) (h2 : v ≤ 840) :
     Lex.tzParse (Lex.tzCanon v) = some v ∧ XSD.timezoneVal? (Lex.tzCanon v) = some v ∧
-    Lex.tzCanon v = XSD.timezoneCanon v := by
-  have h := tz_roundtrip_fin (v + 840).toNat (by omega)
-  have e : (((v + 840).toNat : Nat) : Int) - 840 = v := by omega
-  rw [e] at h
-  exact h
+    Lex.tzCanon v = XSD.timezoneCanon v := LexLemmas.tz_parse_canon_roundtrip v h1 h2
 
 /-- **tz_lexical_space_exhaustive** (kernel evaluation over the complete lexical space of timezoneFrag,
-1683 literals generated from the numbers): the `tzinfo` group of the patterns accepts every literal,
-`Timezone.fromstring` gives it the XSD value in minutes — the sign applies to hours *and* minutes, so
-'-00:30' is −30 —, the spec's own reading agrees, and `str(Timezone)` of that value re-parses to it. -/
+1683 literals generated from the numbers, `LexLemmas.tzCheck_all`): the `tzinfo` group of the patterns accepts
+every literal, `Timezone.fromstring` gives it the XSD value in minutes — the sign applies to hours *and*
+minutes, so '-00:30' is −30 —, the spec's own reading agrees, and `str(Timezone)` of that value re-parses to it. -/
 theorem tz_lexical_space_exhaustive :
     ∀ p ∈ XSD.timezoneLiterals,
       Lex.tzParse p.1 = some p.2 ∧ XSD.timezoneVal? p.1 = some p.2 ∧
-      Lex.tzParse (Lex.tzCanon p.2) = some p.2 ∧ Lex.tzCanon p.2 = XSD.timezoneCanon p.2 := by
-  intro p hp
-  have := List.all_eq_true.mp tzCheck_all p hp
-  simp only [tzCheck, Bool.and_eq_true, beq_iff_eq, decide_eq_true_eq] at this
-  have hr := tz_parse_canon_roundtrip p.2 this.2.1 this.2.2
-  exact ⟨this.1.1, this.1.2, hr.1, hr.2.2⟩
+      Lex.tzParse (Lex.tzCanon p.2) = some p.2 ∧ Lex.tzCanon p.2 = XSD.timezoneCanon p.2 :=
+  LexLemmas.tz_lexical_space_exhaustive
+
+/-- **tz_rejects_non_literals**: the `tzinfo` group of the date/time patterns accepts *nothing* outside the
+1683 literals of the spec's enumeration — for all strings (structural proof, not enumeration). -/
+theorem tz_rejects_non_literals (s : List Char) (h : Lex.matchTz s = true) :
+    ∃ p ∈ XSD.timezoneLiterals, p.1 = s := LexLemmas.matchTz_mem_literals s h
+
+/-- hence the pattern accepts exactly the literal set … -/
+theorem tz_pattern_iff_literal (s : List Char) :
+    Lex.matchTz s = true ↔ ∃ p ∈ XSD.timezoneLiterals, p.1 = s := by
+  constructor
+  · exact tz_rejects_non_literals s
+  · rintro ⟨p, hp, rfl⟩
+    have := (tz_lexical_space_exhaustive p hp).1
+    unfold Lex.tzParse at this
+    split at this
+    · assumption
+    · cases this
+
+/-- … and on everything it accepts, `Timezone.fromstring` computes the XSD value and its canonical string
+re-parses to it (all strings). -/
+theorem tz_parse_eq_spec (s : List Char) (h : Lex.matchTz s = true) :
+    Lex.tzParse s = XSD.timezoneVal? s ∧
+    ∃ v, Lex.tzParse s = some v ∧ Lex.tzParse (Lex.tzCanon v) = some v := by
+  obtain ⟨p, hp, rfl⟩ := tz_rejects_non_literals s h
+  have := tz_lexical_space_exhaustive p hp
+  exact ⟨by rw [this.1, this.2.1], p.2, this.1, this.2.2.1⟩
 
 /-- the seeded defect "minutes of a negative offset below one hour read as positive" contradicts these
 (tests on literals): -00:30 is −30 and prints as -00:30; ±00:00 print as Z -/
